@@ -1,6 +1,6 @@
 import drvjobs
-FUNCS = ['nanovm/main.c: run_standalone (nano_vm)', 'nanovirt/main.c: main tail (--run): exit status derivation']
-OUTSIDE = ['the generated wrapper executable\'s main (text produced by wrapper_gen.c) - not encoded; seeded change C10/b lives there',
+FUNCS = ['wrapper_gen.c: write_wrapper_c (run natively) -> the generated wrapper main() (run symbolically)', 'nanovm/main.c: run_standalone (nano_vm)', 'nanovirt/main.c: main tail (--run): exit status derivation']
+OUTSIDE = ['the wrapper is checked on the main() text that write_wrapper_c emits for an import-free module; FFI module loading in wrappers is outside',
            'stdout equality of the three runners (concrete execution)']
 def jobs(tier):
-    return drvjobs.exit_status_jobs('c10', tier)
+    return drvjobs.exit_status_jobs('c10', tier) + [drvjobs.wrapper_job('c10', tier)]
